@@ -4,7 +4,7 @@
    dup_identifier_in_transaction); be_holds P be = the backend maps the identifier of every named node of P to that
    node's own document.  Text level (json text, expression strings, float repr) is outside the model. *)
 From Coq Require Import String List ZArith QArith Bool.
-Require Import QV.C10.Model QV.C10.Spec QV.C10.Iface QV.C10.Proofs QV.C10.Proofs_store QV.C10.Proofs_share QV.C10.Proofs_iface QV.C10.Witness.
+Require Import QV.C10.Model QV.C10.Spec QV.C10.Iface QV.C10.Proofs QV.C10.Proofs_store QV.C10.Proofs_share QV.C10.Proofs_iface QV.C10.Proofs_guard QV.C10.Witness.
 Import ListNotations.
 Open Scope string_scope.
 
@@ -126,6 +126,14 @@ Theorem C10_roundtrip_refuted_int_key : exists p, pt_id p = None /\
   forall rs st p' st', decode rs (to_data p) st = Ok (p', st') -> erase p' <> erase p.
 Proof. exact refuted_int_key. Qed.
 Print Assumptions C10_roundtrip_refuted_int_key.
+
+(* ... and the guard is tight at the level of one document: EVERY template with an integer channel id as a key of one of
+   its own dicts (own_cs p = false), of any class, is loaded as a different template (or not at all), for every resolver
+   and loader state *)
+Theorem C10_int_key_always_lost : forall p rs st p' st', own_cs p = false ->
+  decode rs (to_data p) st = Ok (p', st') -> erase p' <> erase p.
+Proof. exact int_key_always_lost. Qed.
+Print Assumptions C10_int_key_always_lost.
 
 (* finding dup_identifier_in_transaction: store succeeds, a fresh storage loads a different pulse *)
 Theorem C10_storage_refuted_dup_identifier : exists P s' p' st', wf P = true /\
